@@ -216,6 +216,21 @@ func init() {
 	// ---- bytes ----
 	reg([]string{"bytes.Equal"}, nil, func(e *Eng, fr *Frame, c *ssa.CallCommon, args []*Val, st *State, g string, pos token.Pos) *Val {
 		n := e.sc.define("bytes_equal", "Bool", eq(e.bseqOf(args[0], st), e.bseqOf(args[1], st)), "bytes.Equal")
+		// against a short literal of known length the comparison is spelled out elementwise
+		for k := 0; k < 2; k++ {
+			lit, other := args[k], args[1-k]
+			if lit.KnownLen >= 0 && lit.KnownLen <= 8 {
+				r, rs := e.elemRegion(types.Typ[types.Uint8])
+				heap := e.get(st, r, rs)
+				cs := []string{eq(sx("s_len", other.T), fmt.Sprint(lit.KnownLen))}
+				for j := 0; j < lit.KnownLen; j++ {
+					js := fmt.Sprint(j)
+					cs = append(cs, eq(sel(sel(heap, sx("s_arr", other.T)), idxAt(sx("s_off", other.T), js)), selStoreChain(e.selReg(st, r, rs, sx("s_arr", lit.T)), idxAt(sx("s_off", lit.T), js))))
+				}
+				e.sc.assume(eq(n, and(cs...)), "bytes.Equal against a fixed-length literal, elementwise")
+				break
+			}
+		}
 		// equal sequences have equal lengths; an empty slice equals nil
 		e.sc.assume(implies(n, eq(sx("s_len", args[0].T), sx("s_len", args[1].T))), "bytes.Equal implies same length")
 		e.sc.assume(implies(and(eq(sx("s_len", args[0].T), "0"), eq(sx("s_len", args[1].T), "0")), n), "empty byte strings are equal")
